@@ -218,6 +218,20 @@ def execute_world(trace: dict) -> Outcome:
             v = Violation(ID, "unexpected_exception", r.progress, {**feats, "rank": r.idx, "exc_type": type(r.exc).__name__, "exc": str(r.exc)[:300], "tb": r.exc_tb[-600:]})
     elif v is None and sim.outcome != "ok":
         probes["world_liveness_not_judged_here"] += 1  # deadlock / collective mismatch are C06-C08's clauses
+    if v is None and not starving and sim.outcome == "ok" and any(e["op"] == "step" and any(g is None for g in e["g"]) for e in trace["events"]):
+        # second clause in worlds: with some gradients absent, the parameters that do have gradients are updated with their
+        # own state only - the serial twin of the corresponding world property (re-synchronised every step) decides
+        from . import c06, c08
+
+        if w["kind"] == "ddp":
+            sim2, outs2 = c06.run_world_once(trace, trace["schedule_seed"], trace.get("schedule"))
+            v2 = c06.evaluate_ddp_like(trace, sim2, outs2, ID, probes, [list(range(n))]) if sim2.outcome == "ok" else None
+        else:
+            sim2, outs2 = c08.run_world(trace, trace["schedule_seed"], trace.get("schedule"))
+            v2 = c08.evaluate_sharded(trace, sim2, outs2, ID, probes, w["kind"]) if sim2.outcome == "ok" else None
+        probes["world_twin_compared"] += 1
+        if v2 is not None and v2.tag in ("diverges_from_serial", "shard_diverges_from_slab_twin", "local_shard_diverges_from_twin", "rounding_regime_exceeded"):
+            v = Violation(ID, "present_param_cross_wired:" + v2.tag, v2.event, {**feats, **{k: x for k, x in v2.context.items() if not k.startswith("f_")}})
     return Outcome(
         violation=v,
         probes=probes,
@@ -234,7 +248,9 @@ def execute(trace: dict) -> Outcome:
     common.quiet_logs()
     if trace.get("engine") == "world-absent":
         return execute_world(trace)
-    oracles = [engine.FrozenMonitor(), engine.RefOracle(check_roots=False)]
+    # (roots and bases are checked too: a block that was absent for a while must still get *its own* root when it comes
+    # back - bookkeeping shared between blocks, e.g. a list-level flag set from the present blocks only, shows there)
+    oracles = [engine.FrozenMonitor(), engine.RefOracle(check_roots=True)]
     run = engine.SingleRun(trace, oracles, ID)
     v = run.run()
     shapes = [tuple(p["shape"]) for p in trace["params"]]
